@@ -8,39 +8,59 @@ the functions below say which bytes are emitted for that parse once the entropy 
 symbol type).  `Lemmas/BlockRT.lean` proves that the decoder model (`Block.decodeBlock`, `Frame.decompressAll`) maps these bytes back
 to the block content for EVERY valid parse (`block_roundtrip`, `frame_roundtrip_compressed`).
 
-Scope of the table modes: `set_basic` (predefined tables) and `set_rle`.  `set_compressed` (FSE-described tables) is NOT produced
-here: the round trip of the table description, FSE_writeNCount <-> FSE_readNCount, is not proved yet (the bit stream itself is covered
-for such tables by `SeqRT.inverts_build`); `set_repeat` is not produced either.
+Table modes: all four of `symbolEncodingType_e`: `set_basic` (predefined tables), `set_rle`, `set_compressed` (a table described in the
+block by FSE_writeNCount, Model/NCountW.lean; the NORMALISED COUNTS are a decision handed to the serializer: FSE_normalizeCount is a
+heuristic, not modelled) and `set_repeat` (the table of the previous compressed block that had sequences; the previous decisions are an
+extra, optional argument `prev` of the functions below, threaded by `serializeBlocks2` the way the repeat-offset history is).
 Core imports only.
 -/
 import ZstdVerif.Model.LitEnc
 import ZstdVerif.Model.SeqEnc
 import ZstdVerif.Model.Serialize
+import ZstdVerif.Model.NCountW
 namespace ZstdVerif.BlockEnc
 open ZstdVerif.Gen ZstdVerif.FSE ZstdVerif.SeqEnc ZstdVerif.LitEnc ZstdVerif.Serialize
 
 /-- the symbol-compression mode of one of the three sequence tables (`symbolEncodingType_e`): `set_basic` | `set_rle` with the one
-symbol every sequence of the block uses.  (`set_compressed`, `set_repeat`: see the header of this file.) -/
+symbol every sequence of the block uses | `set_compressed` with the normalised counts `norm` (one per symbol up to the last one used)
+and their table log | `set_repeat`: the table the previous block with sequences used -/
 inductive SeqTableChoice where
   | predefined
   | rle (sym : Nat)
+  | fse (norm : Array Int) (log : Nat)
+  | repeat
 deriving Repr, DecidableEq, Inhabited
 
-/-- the value written into the compression-modes byte: set_basic = 0, set_rle = 1 -/
+/-- the value written into the compression-modes byte: set_basic = 0, set_rle = 1, set_compressed = 2, set_repeat = 3 -/
 def SeqTableChoice.mode : SeqTableChoice → Nat
   | .predefined => set_basic
   | .rle _ => set_rle
+  | .fse _ _ => set_compressed
+  | .repeat => set_repeat
 
-/-- ZSTD_buildCTable (zstd_compress_sequences.c): `set_rle`: FSE_buildCTable_rle, then `*op = codeTable[0]` (one byte);
-`set_basic`: FSE_buildCTable_wksp from the default distribution, nothing written.  This is the written part. -/
+/-- ZSTD_buildCTable (zstd_compress_sequences.c), the written part: `set_rle`: FSE_buildCTable_rle, then `*op = codeTable[0]` (one byte);
+`set_basic`: FSE_buildCTable_wksp from the default distribution, nothing written; `set_compressed`: (FSE_normalizeCount,) FSE_writeNCount
+of the normalised counts; `set_repeat`: `ZSTD_memcpy(nextCTable, prevCTable, prevCTableSize)`, nothing written. -/
 def SeqTableChoice.descr : SeqTableChoice → ByteArray
   | .predefined => ByteArray.empty
   | .rle sym => le sym 1
+  | .fse norm log => NCountW.writeNCount norm log
+  | .repeat => ByteArray.empty
 
-/-- ZSTD_buildCTable, the table part (`norm` / `log` = the default distribution of the symbol type) -/
+/-- `set_repeat` stands for the (resolved) choice of the previous block -/
+def SeqTableChoice.resolve (c prev : SeqTableChoice) : SeqTableChoice :=
+  match c with
+  | .repeat => prev
+  | c => c
+
+/-- ZSTD_buildCTable, the table part, of a RESOLVED choice (`norm` / `log` = the default distribution of the symbol type):
+`set_compressed`: FSE_buildCTable_wksp of the normalised counts.  (An unresolved `.repeat` never reaches this function through
+`ctLL` / `ctOF` / `ctML` when `prev` is resolved; it is given the default table.) -/
 def SeqTableChoice.ctable (norm : List Int) (log : Nat) : SeqTableChoice → CTable
   | .predefined => buildCTable norm.toArray log
   | .rle sym => rleCTable sym
+  | .fse n l => buildCTable n l
+  | .repeat => buildCTable norm.toArray log
 
 /-- the three decisions of ZSTD_buildSequencesStatistics (`stats.LLtype`, `stats.Offtype`, `stats.MLtype`) -/
 structure Tables where
@@ -48,6 +68,10 @@ structure Tables where
   of : SeqTableChoice := .predefined
   ml : SeqTableChoice := .predefined
 deriving Repr, DecidableEq, Inhabited
+
+/-- the three decisions with `set_repeat` replaced by what the previous block (`prev`, resolved) used -/
+def Tables.resolve (prev t : Tables) : Tables :=
+  { ll := t.ll.resolve prev.ll, of := t.of.resolve prev.of, ml := t.ml.resolve prev.ml }
 
 /-- what ZSTD_compressLiterals does with the literals: ZSTD_noCompressLiterals | ZSTD_compressRleLiteralsBlock | Huffman with a new
 table whose weights are `ws ++ [last]` (depth `tableLog`), described in the direct 4-bit form (`LitEnc.hufLiterals`) -/
@@ -83,22 +107,29 @@ def nbSeqHeader (nbSeq : Nat) : ByteArray :=
 /-- `*seqHead = (BYTE)((stats.LLtype<<6) + (stats.Offtype<<4) + (stats.MLtype<<2))` -/
 def seqHead (t : Tables) : Nat := (t.ll.mode <<< 6) + (t.of.mode <<< 4) + (t.ml.mode <<< 2)
 
-def ctLL (t : Tables) : CTable := t.ll.ctable LL_defaultNorm LL_DEFAULTNORMLOG
-def ctOF (t : Tables) : CTable := t.of.ctable OF_defaultNorm OF_DEFAULTNORMLOG
-def ctML (t : Tables) : CTable := t.ml.ctable ML_defaultNorm ML_DEFAULTNORMLOG
+def ctLL (t : Tables) (prev : Tables := {}) : CTable := (t.ll.resolve prev.ll).ctable LL_defaultNorm LL_DEFAULTNORMLOG
+def ctOF (t : Tables) (prev : Tables := {}) : CTable := (t.of.resolve prev.of).ctable OF_defaultNorm OF_DEFAULTNORMLOG
+def ctML (t : Tables) (prev : Tables := {}) : CTable := (t.ml.resolve prev.ml).ctable ML_defaultNorm ML_DEFAULTNORMLOG
 
 /-- ZSTD_entropyCompressSeqStore_internal behind the literals: the nbSeq header; for `nbSeq == 0` nothing else (`return op - ostart`);
-otherwise the modes byte, the table descriptions in the order LL, OF, ML (ZSTD_buildSequencesStatistics; one byte per RLE table),
-and the bit stream of ZSTD_encodeSequences -/
-def seqSection (t : Tables) (seqs : List SeqIn) : ByteArray :=
+otherwise the modes byte, the table descriptions in the order LL, OF, ML (ZSTD_buildSequencesStatistics; one byte per RLE table, the
+FSE_writeNCount bytes per described table), and the bit stream of ZSTD_encodeSequences.  `prev` = the resolved decisions of the previous
+block with sequences (`prevEntropy->fse`); only looked at for `set_repeat`. -/
+def seqSection (t : Tables) (seqs : List SeqIn) (prev : Tables := {}) : ByteArray :=
   if seqs.isEmpty then nbSeqHeader 0
   else nbSeqHeader seqs.length ++ le (seqHead t) 1 ++ t.ll.descr ++ t.of.descr ++ t.ml.descr ++
-    encodeSeqBytes (ctLL t) (ctOF t) (ctML t) seqs
+    encodeSeqBytes (ctLL t prev) (ctOF t prev) (ctML t prev) seqs
 
 /-- ZSTD_entropyCompressSeqStore_internal: the body of a compressed block = literals section ++ sequences section.
 (`dstCapacity`, and the return value 0 "not compressible" that makes the caller emit a raw block, are decisions: not modelled.) -/
-def serializeBlockBody (c : LitChoice) (lits : ByteArray) (t : Tables) (seqs : List SeqIn) : ByteArray :=
-  litSection c lits ++ seqSection t seqs
+def serializeBlockBody (c : LitChoice) (lits : ByteArray) (t : Tables) (seqs : List SeqIn) (prev : Tables := {}) : ByteArray :=
+  litSection c lits ++ seqSection t seqs prev
+
+/-- the tables the NEXT block may repeat (`nextEntropy->fse` after ZSTD_entropyCompressSeqStore_internal): a block without sequences
+returns early after `ZSTD_memcpy(&nextEntropy->fse, &prevEntropy->fse, ..)` and leaves them as they were; `none` = no block with
+sequences yet (the decoder's `fseEntropy == 0`: `set_repeat` is not available) -/
+def nextTables (prev : Option Tables) (t : Tables) (seqs : List SeqIn) : Option Tables :=
+  if seqs.isEmpty then prev else some (Tables.resolve (prev.getD {}) t)
 
 /-! ### from the match finder's view (raw offsets) to the seqStore (offBase), block after block -/
 
@@ -150,14 +181,16 @@ def repStart : Rep.R := ⟨1, 4, 8⟩
 
 /-- the block loop of ZSTD_compress_frameChunk for a given list of block decisions; `rep` = the encoder's repeat-offset history
 (`prevCBlock->rep`), advanced by compressed blocks only: a block emitted raw or RLE leaves the history as it was (the confirm step is
-skipped), exactly as the decoder does not touch its history on such blocks -/
-def serializeBlocks2 (x : ByteArray) : List BlockChoice2 → Nat → Rep.R → ByteArray
-  | [], _, _ => ByteArray.empty
-  | .raw n :: rest, pos, rep => noCompressBlock rest.isEmpty x pos n ++ serializeBlocks2 x rest (pos + n) rep
-  | .rle b n :: rest, pos, rep => rleCompressBlock rest.isEmpty b n ++ serializeBlocks2 x rest (pos + n) rep
-  | .compressed c t lits raws :: rest, pos, rep =>
-    compressedBlock rest.isEmpty (serializeBlockBody c lits t (storeAll rep raws).1) ++
-      serializeBlocks2 x rest (pos + parseLen lits raws) (storeAll rep raws).2
+skipped), exactly as the decoder does not touch its history on such blocks.  `prev` = the sequence tables a `set_repeat` refers to
+(`prevCBlock->entropy.fse`), threaded the same way (`nextTables`). -/
+def serializeBlocks2 (x : ByteArray) (bs : List BlockChoice2) (pos : Nat) (rep : Rep.R) (prev : Option Tables := none) : ByteArray :=
+  match bs with
+  | [] => ByteArray.empty
+  | .raw n :: rest => noCompressBlock rest.isEmpty x pos n ++ serializeBlocks2 x rest (pos + n) rep prev
+  | .rle b n :: rest => rleCompressBlock rest.isEmpty b n ++ serializeBlocks2 x rest (pos + n) rep prev
+  | .compressed c t lits raws :: rest =>
+    compressedBlock rest.isEmpty (serializeBlockBody c lits t (storeAll rep raws).1 (prev.getD {})) ++
+      serializeBlocks2 x rest (pos + parseLen lits raws) (storeAll rep raws).2 (nextTables prev t (storeAll rep raws).1)
 
 /-- a whole frame: ZSTD_writeFrameHeader, the blocks, ZSTD_writeEpilogue (`Serialize.epilogue`) -/
 def serializeFrame2 (a : HeaderW.HArgs) (blocks : List BlockChoice2) (x : ByteArray) : ByteArray :=
